@@ -17,6 +17,56 @@ func header(kind string, n int, shape string) string {
 	return fmt.Sprintf("comp=%s n=%d shape=%s", kind, n, shape)
 }
 
+// weight scales: the library sees weight * 2^wexp.  Every weight of a case is an integer m with sum of |m| < 2^53
+// (asserted by Exec at every `edge`), so m * 2^wexp and every sum of distinct edge weights are exact float64
+// values for each of these exponents: down to the subnormal range (2^-1070 = 16 * 2^-1074) and up to 2^900
+// (sums stay far below math.MaxFloat64, the "unreached" mark of Prim and Dijkstra).
+var wexps = []int{0, 0, -10, -40, -40, -60, -200, -1000, -1070, 10, 40, 200, 900}
+
+type scale struct {
+	wexp  int
+	mixed bool // weights m * 2^d with d in {0, 10, 20, 30, 40}: magnitudes 12 decimal orders apart in one graph
+}
+
+func pickScale(r *hx.Rand, kind string) scale {
+	if !weighted(kind) || r.Chance(1, 3) {
+		return scale{}
+	}
+	return scale{wexp: hx.Pick(r, wexps), mixed: r.Chance(1, 4)}
+}
+
+func (sc scale) header(kind string, n int, shape string) string {
+	h := header(kind, n, shape)
+	if sc.wexp != 0 {
+		h += fmt.Sprintf(" wexp=%d", sc.wexp)
+	}
+	if sc.mixed {
+		h += " mixed=1"
+	}
+	return h
+}
+
+// apply turns small weights into mixed magnitudes; the sum of magnitudes stays below 2^52
+func (sc scale) apply(r *hx.Rand, es []rawEdge) []rawEdge {
+	if !sc.mixed {
+		return es
+	}
+	out := append([]rawEdge(nil), es...)
+	budget := 1 << 52
+	for k := range out {
+		m := out[k].w
+		if m < 0 {
+			m = -m
+		}
+		d := hx.Pick(r, []int{0, 0, 10, 20, 30, 40})
+		for d > 0 && (m<<d) >= budget/(len(out)+1) {
+			d -= 10
+		}
+		out[k].w <<= d
+	}
+	return out
+}
+
 func graphOps(kind string, n int, es []rawEdge) []string {
 	ops := []string{fmt.Sprintf("graph %s %d", kind, n)}
 	for _, e := range es {
@@ -43,6 +93,15 @@ func allQueries(kind string, n int, invalidSources bool) []string {
 	}
 	for _, st := range strats {
 		ops = append(ops, "orders "+st)
+	}
+	if n > 0 {
+		// Traverse with visitors of the caller: complete from vertex 0, and stopped at every callback in turn
+		for _, st := range strats {
+			ops = append(ops, fmt.Sprintf("traverse %s 0 all", st))
+			for k := 0; k < 3*n && k < 7; k++ {
+				ops = append(ops, fmt.Sprintf("traverse %s %d %d", st, k%n, k))
+			}
+		}
 	}
 	switch kind {
 	case "directed":
@@ -262,6 +321,8 @@ func randomCase(r *hx.Rand) (string, hx.Case) {
 		n = r.Range(10, 24)
 	}
 	es, shape := randomEdges(r, kind, n)
+	sc := pickScale(r, kind)
+	es = sc.apply(r, es)
 	ops := graphOps(kind, n, es)
 	if n <= 9 {
 		ops = append(ops, allQueries(kind, n, r.Chance(1, 4))...)
@@ -276,7 +337,213 @@ func randomCase(r *hx.Rand) (string, hx.Case) {
 	if r.Chance(1, 5) {
 		ops = append(ops, panicQuery(r, kind, n))
 	}
-	return kind, hx.Case{Header: header(kind, n, shape), Ops: ops}
+	return kind, hx.Case{Header: sc.header(kind, n, shape), Ops: ops}
+}
+
+func edgeLine(kind string, e rawEdge) string {
+	if weighted(kind) {
+		return fmt.Sprintf("edge %d %d %d", e.u, e.v, e.w)
+	}
+	return fmt.Sprintf("edge %d %d", e.u, e.v)
+}
+
+// one query on the current object; `wide` = ops that list something for every vertex are allowed
+func randomQuery(r *hx.Rand, kind string, n int) string {
+	vtx := func() int {
+		if n == 0 || r.Chance(1, 12) {
+			return hx.Pick(r, []int{-1, n, n + 3})
+		}
+		return r.Intn(n)
+	}
+	src := func() int { // sources may be invalid (Paths then finds nothing), ShortestPathTree sources may not
+		if n == 0 {
+			return 0
+		}
+		return r.Intn(n)
+	}
+	directed := kind == "directed" || kind == "wdirected"
+	switch r.Intn(10) {
+	case 0, 1: // the algorithm of the kind that reads most of the object
+		switch kind {
+		case "directed":
+			return hx.Pick(r, []string{"scc", "scc", "cycle", "topo"})
+		case "undirected":
+			return "cc"
+		case "wdirected":
+			if n > 0 && r.Bool() {
+				return fmt.Sprintf("spt %d", src())
+			}
+			return "scc"
+		default:
+			return hx.Pick(r, []string{"mst", "mst", "cc"})
+		}
+	case 2:
+		return fmt.Sprintf("paths %s %d", hx.Pick(r, strats), vtx())
+	case 3:
+		if n > 0 {
+			return fmt.Sprintf("path %s %d %d", hx.Pick(r, strats), vtx(), r.Intn(n))
+		}
+		return "orders dfs"
+	case 4:
+		if r.Bool() {
+			stop := "all"
+			if r.Chance(2, 3) {
+				stop = fmt.Sprint(r.Intn(3*n + 2))
+			}
+			return fmt.Sprintf("traverse %s %d %s", hx.Pick(r, strats), vtx(), stop)
+		}
+		return "orders " + hx.Pick(r, strats)
+	case 5:
+		return "dump"
+	case 6:
+		if directed {
+			return "reverse"
+		}
+		return fmt.Sprintf("degree %d", vtx())
+	case 7:
+		if directed {
+			return fmt.Sprintf("%s %d", hx.Pick(r, []string{"indeg", "outdeg"}), vtx())
+		}
+		return fmt.Sprintf("adjof %d", vtx())
+	case 8:
+		if weighted(kind) {
+			return "edges"
+		}
+		return fmt.Sprintf("adjof %d", vtx())
+	default:
+		if kind == "wdirected" && n > 0 {
+			return fmt.Sprintf("sptto %d %d", src(), r.Intn(n))
+		}
+		if kind == "wundirected" {
+			return "mst"
+		}
+		if kind == "directed" {
+			return hx.Pick(r, []string{"topo", "cycle", "scc"})
+		}
+		return "cc"
+	}
+}
+
+// historyCase: a graph object used the way an incremental client uses it — edges and queries interleaved in
+// several rounds on the same object; for the directed kinds Reverse() results are kept as further objects,
+// which get edges and queries of their own while the original keeps changing.
+func historyCase(r *hx.Rand) (string, hx.Case) {
+	kind := hx.Pick(r, kinds)
+	n := r.Range(1, 7)
+	if r.Chance(1, 25) {
+		n = 0
+	}
+	sc := pickScale(r, kind)
+	directed := kind == "directed" || kind == "wdirected"
+	wmax := hx.Pick(r, []int{1, 3, 9, 200})
+	neg := kind == "wundirected" && r.Chance(1, 4) || kind == "wdirected" && r.Chance(1, 15)
+	oneEdge := func() rawEdge {
+		v := func() int {
+			if n == 0 || r.Chance(1, 30) {
+				return hx.Pick(r, []int{-1, n, n + 1})
+			}
+			return r.Intn(n)
+		}
+		w := r.Range(0, wmax)
+		if r.Chance(1, 8) {
+			w = 0
+		}
+		if neg && r.Chance(1, 4) {
+			w = -w
+		}
+		return rawEdge{v(), v(), w}
+	}
+	ops := []string{fmt.Sprintf("graph %s %d", kind, n)}
+	nobj := 1
+	rounds := r.Range(2, 6)
+	for round := 0; round < rounds; round++ {
+		ne := r.Range(0, 3)
+		if round == 0 {
+			ne = r.Range(0, n+2)
+		}
+		var es []rawEdge
+		for k := 0; k < ne; k++ {
+			es = append(es, oneEdge())
+		}
+		for _, e := range sc.apply(r, es) {
+			ops = append(ops, edgeLine(kind, e))
+		}
+		for k := r.Range(1, 4); k > 0; k-- {
+			ops = append(ops, randomQuery(r, kind, n))
+		}
+		if directed && nobj < 4 && r.Chance(1, 3) {
+			ops = append(ops, "mkrev")
+			nobj++
+		}
+		if nobj > 1 && r.Chance(1, 2) {
+			ops = append(ops, fmt.Sprintf("use %d", r.Intn(nobj)))
+		}
+	}
+	// at the end every object is asked for its state and for the algorithm that reads all of it
+	for k := 0; k < nobj; k++ {
+		if nobj > 1 {
+			ops = append(ops, fmt.Sprintf("use %d", k))
+		}
+		ops = append(ops, "dump")
+		switch kind {
+		case "directed", "wdirected":
+			ops = append(ops, "scc", "reverse")
+		case "undirected":
+			ops = append(ops, "cc")
+		default:
+			ops = append(ops, "cc", "mst")
+		}
+	}
+	if r.Chance(1, 8) {
+		ops = append(ops, panicQuery(r, kind, n))
+	}
+	return kind, hx.Case{Header: sc.header(kind, n, "history"), Ops: ops}
+}
+
+// nearTieCase: weighted graphs in which many routes (resp. many candidate tree edges) have almost the same
+// total weight, at a scale where the differences are tiny in absolute terms (2^-40 … 2^-1000) or huge (2^900):
+// an improvement by one unit must still be taken.
+func nearTieCase(r *hx.Rand) (string, hx.Case) {
+	kind := hx.Pick(r, []string{"wdirected", "wdirected", "wundirected"})
+	n := r.Range(3, 9)
+	sc := scale{wexp: hx.Pick(r, []int{-40, -40, -60, -200, -1000, -1070, 900, 0})}
+	base := hx.Pick(r, []int{0, 10, 100, 1000})
+	var es []rawEdge
+	// a slow direct edge and chains of cheap hops: the later, longer route is better by little
+	for k := r.Range(n, 3*n); k > 0; k-- {
+		a, b := r.Intn(n), r.Intn(n)
+		es = append(es, rawEdge{a, b, base + r.Range(0, 6)})
+	}
+	for v := 0; v+1 < n; v++ {
+		if r.Chance(3, 4) {
+			es = append(es, rawEdge{v, v + 1, r.Range(0, 2)})
+		}
+	}
+	for k := r.Range(0, 2); k > 0; k-- {
+		es = append(es, rawEdge{0, r.Intn(n), base*r.Range(1, n) + r.Range(0, 3)})
+	}
+	for i := len(es) - 1; i > 0; i-- {
+		j := r.Intn(i + 1)
+		es[i], es[j] = es[j], es[i]
+	}
+	ops := graphOps(kind, n, es)
+	if kind == "wdirected" {
+		for s := 0; s < n; s++ {
+			ops = append(ops, fmt.Sprintf("spt %d", s))
+		}
+	} else {
+		ops = append(ops, "mst", "cc", "edges")
+	}
+	// second round on the same object
+	for k := r.Range(1, 3); k > 0; k-- {
+		ops = append(ops, edgeLine(kind, rawEdge{r.Intn(n), r.Intn(n), r.Range(0, 3)}))
+	}
+	if kind == "wdirected" {
+		ops = append(ops, fmt.Sprintf("spt %d", r.Intn(n)), "dump")
+	} else {
+		ops = append(ops, "mst", "dump")
+	}
+	return kind, hx.Case{Header: sc.header(kind, n, "neartie"), Ops: ops}
 }
 
 // large structured graphs: the stacks and queues behind DFSi, BFS, To, PathTo and Cycle cross their
@@ -345,6 +612,19 @@ func bigCase(r *hx.Rand, kind string, shape string) hx.Case {
 	case "wundirected":
 		ops = append(ops, "mst", "cc")
 	}
+	// second round on the same object: a chord back towards the start, then the queries that read all of it
+	ops = append(ops, edgeLine(kind, rawEdge{far, src, w()}), edgeLine(kind, rawEdge{r.Intn(n), r.Intn(n), w()}))
+	ops = append(ops, fmt.Sprintf("path %s %d %d", hx.Pick(r, strats), far, src))
+	switch kind {
+	case "directed":
+		ops = append(ops, "scc", "cycle")
+	case "undirected":
+		ops = append(ops, "cc")
+	case "wdirected":
+		ops = append(ops, "scc", fmt.Sprintf("sptto %d %d", far, r.Intn(n)))
+	case "wundirected":
+		ops = append(ops, "mst")
+	}
 	return hx.Case{Header: header(kind, n, shape), Ops: ops}
 }
 
@@ -374,6 +654,16 @@ func Main(run *hx.Run) {
 	r := run.R.Fork("random")
 	for k, n := 0, run.Scale(1500); k < n; k++ {
 		kind, c := randomCase(r)
+		run.Do(kind, c, Exec)
+	}
+	rh := run.R.Fork("history")
+	for k, n := 0, run.Scale(1200); k < n; k++ {
+		kind, c := historyCase(rh)
+		run.Do(kind, c, Exec)
+	}
+	rt := run.R.Fork("neartie")
+	for k, n := 0, run.Scale(300); k < n; k++ {
+		kind, c := nearTieCase(rt)
 		run.Do(kind, c, Exec)
 	}
 	rb := run.R.Fork("big")
@@ -432,7 +722,50 @@ func Main(run *hx.Run) {
 				})
 			}
 		}
+		// histories: all edge sequences with <= 3 edges on <= 3 vertices (<= 4 edges on <= 2 vertices), every query
+		// (and dump, reverse) asked after EVERY AddEdge on the same object, not only at the end
+		for _, kind := range kinds {
+			for n := 1; n <= 3; n++ {
+				var alpha []rawEdge
+				for u := 0; u < n; u++ {
+					for v := 0; v < n; v++ {
+						if weighted(kind) {
+							alpha = append(alpha, rawEdge{u, v, (u*2 + v*3) % 4})
+						} else if kind == "directed" || u <= v {
+							alpha = append(alpha, rawEdge{u, v, 0})
+						}
+					}
+				}
+				maxE := 3
+				if n <= 2 {
+					maxE = 4
+				}
+				qs := append(allQueries(kind, n, false), "dump")
+				if kind == "directed" || kind == "wdirected" {
+					qs = append(qs, "reverse")
+				}
+				if weighted(kind) {
+					qs = append(qs, "edges")
+				}
+				sc := scale{}
+				if weighted(kind) {
+					sc.wexp = -40
+				}
+				edgeSequences(alpha, maxE, func(es []rawEdge) {
+					if len(es) < 2 {
+						return
+					}
+					ops := []string{fmt.Sprintf("graph %s %d", kind, n)}
+					ops = append(ops, qs...)
+					for _, e := range es {
+						ops = append(ops, edgeLine(kind, e))
+						ops = append(ops, qs...)
+					}
+					run.Do(kind, hx.Case{Header: sc.header(kind, n, "exhaustive-history"), Ops: ops}, Exec)
+				})
+			}
+		}
 		run.Stats.Exhaustive = true
-		run.Stats.Extra["exhaustive_part"] = "all edge sequences (multigraphs incl. self-loops, parallel edges, every insertion order) with <=3 vertices and <=4 edges for the four graph kinds (undirected: unordered pairs); weighted kinds additionally all sequences of <=3 edges with weights in {0,1,2}; all queries, all sources"
+		run.Stats.Extra["exhaustive_part"] = "all edge sequences (multigraphs incl. self-loops, parallel edges, every insertion order) with <=3 vertices and <=4 edges for the four graph kinds (undirected: unordered pairs); weighted kinds additionally all sequences of <=3 edges with weights in {0,1,2}; all queries, all sources; histories: all edge sequences with <=3 edges on <=3 vertices (<=4 on <=2) with every query, dump and reverse asked after every AddEdge on the same object"
 	}
 }
